@@ -312,7 +312,7 @@ class ExprMixin(object):
       elif isinstance(n.op, ast.Not):
         yield st1, VBool(z3.Not(truthy(v, st1)))
       elif isinstance(n.op, ast.USub) and isinstance(v, VInt):
-        yield st1, VInt(-v.t)
+        yield st1, VInt(z3.simplify(-v.t))
       else:
         raise Unsupported('unary operator')
 
